@@ -146,3 +146,4 @@ import Hm.Statements
 #print axioms C15_rawStored_every_prefix_rejected
 #print axioms C15_decodeBody_truncated_gzip
 #print axioms C13_decodeBody_gzip
+#print axioms C13_decodeBody_level0_stacks
